@@ -648,8 +648,19 @@ def run_relabelled(ctx, fn, mapping, *args, **kw):
     """run a rule function of another property and report its results under this property's rule ids: mapping {foreign id: own id}.
     Used where two properties state the same clause about the same code (the transform of C02 is the domain-transform clause of C01,
     the linear operator of C07/C08 is the fibre of C03's link): a change that breaks it is reported by each of them."""
+    only = kw.pop("_only", False)
     n0 = len(ctx.results)
+    counts0 = dict(ctx.counts)
     fn(ctx, *args, **kw)
+    if only:
+        # a whole check of the other property was run for one of its clauses: the rest of its results are not this property's business
+        dropped = [r for r in ctx.results[n0:] if r.rule not in mapping]
+        ctx.results[n0:] = [r for r in ctx.results[n0:] if r.rule in mapping]
+        for k in {r.rule for r in dropped}:
+            if k in counts0:
+                ctx.counts[k] = counts0[k]
+            else:
+                ctx.counts.pop(k, None)
     for r in ctx.results[n0:]:
         if r.rule in mapping:
             own = mapping[r.rule]
